@@ -34,6 +34,21 @@ def subst(txt, pairs):
     return txt
 
 
+def _ty_names(ty):
+    """all path names occurring in a type node"""
+    out = []
+    if isinstance(ty, dict):
+        if ty.get('k') == 'path':
+            out.append(ty['p'].split('::')[-1])
+        for v in ty.values():
+            if isinstance(v, (dict, list)):
+                out += _ty_names(v)
+    elif isinstance(ty, list):
+        for v in ty:
+            out += _ty_names(v)
+    return out
+
+
 def run(ctx):
     fns, methods, structs = api_fns(ctx)
     w1 = RuleResult('W1', 'sibling wrappers of the parse_sv / parse_lib families are the same code up to the grammar entry')
@@ -225,6 +240,20 @@ def run(ctx):
         if not it.startswith('Iter::new(nodes.into())'):
             return 'undecided', 'iteration over `%s`' % it[:40]
         if trim and not it.endswith('.event()'):
+            # without Enter/Leave the end of a WhiteSpace subtree is not observable; a flag set at the WhiteSpace node and
+            # cleared at the next leaf assumes one leaf per WhiteSpace, which the type graph refutes (WhiteSpace::CompilerDirective)
+            try:
+                from rules.x_emit import descendants
+                desc = descendants(ctx.types, 'WhiteSpace', False)
+                multi = 'Symbol' in desc and 'Keyword' in desc
+            except Exception:
+                multi = False
+            flagged = [sq(n['l_']) for n in sx.walk(fors[0]['body']) if n.get('k') == 'assign' and sq(n['r']) in ('true', 'false')]
+            ws_arm = any(n.get('k') == 'ts' and n['p'] == 'RefNode::WhiteSpace' for n in sx.walk(fors[0]['body']))
+            if multi and ws_arm and flagged:
+                return 'wrong', ('the leaves of a WhiteSpace subtree are skipped with a flag over the plain iteration: the end of the subtree is not '
+                                 'observable there, and a WhiteSpace node can hold several tokens (WhiteSpace::CompilerDirective), so tokens of '
+                                 'trailing trivia are taken for text of the node')
             return 'undecided', 'get_str_trim without the event view'
         # the Locate binding
         loc = None
